@@ -85,7 +85,26 @@ type consumerInfo struct {
 	onFail    map[*ssa.Function]bool           // every path to a return whose bool verdict may be false passes a point
 	may       map[*ssa.Function]bool           // contains (transitively) a point
 	strict    bool                             // when set, calls to may-functions count as points
+	errAware  bool                             // a function whose first result is an error succeeds when it returns nil
 	constMemo map[ssa.CallInstruction]bool
+}
+
+// errorLike: the predeclared error interface, or a pointer to a module type with an Error() method (*fail.Error).
+func errorLike(t types.Type) bool {
+	if types.Identical(t, types.Universe.Lookup("error").Type()) {
+		return true
+	}
+	if p, ok := t.(*types.Pointer); ok {
+		if nt, isN := p.Elem().(*types.Named); isN && nt.Obj().Pkg() != nil && strings.HasPrefix(nt.Obj().Pkg().Path(), modPath) {
+			ms := types.NewMethodSet(t)
+			for i := 0; i < ms.Len(); i++ {
+				if ms.At(i).Obj().Name() == "Error" {
+					return true
+				}
+			}
+		}
+	}
+	return false
 }
 
 // constCallPasses: the call has constant arguments and, evaluated with them, the callee passes a point on the
@@ -139,8 +158,13 @@ func (m *Model) newConsumerInfo(base []*ssa.Function, expect *ssa.Function, univ
 }
 
 // newPassInfo computes must-pass-through summaries for arbitrary point predicates.
-func (m *Model) newPassInfo(callPoint func(ssa.CallInstruction) bool, okPoint func(*ssa.Call) bool, universe []*ssa.Function, skip []*ssa.Function) *consumerInfo {
+func (m *Model) newPassInfo(callPoint func(ssa.CallInstruction) bool, okPoint func(*ssa.Call) bool, universe []*ssa.Function, skip []*ssa.Function, opts ...string) *consumerInfo {
 	ci := &consumerInfo{m: m, callPoint: callPoint, okPoint: okPoint, always: map[*ssa.Function]bool{}, onOK: map[*ssa.Function]bool{}, onFail: map[*ssa.Function]bool{}, may: map[*ssa.Function]bool{}}
+	for _, o := range opts {
+		if o == "erraware" {
+			ci.errAware = true
+		}
+	}
 	skipSet := map[*ssa.Function]bool{}
 	for _, f := range skip {
 		if f != nil {
@@ -224,6 +248,12 @@ func (ci *consumerInfo) failureReturn(b *ssa.BasicBlock) bool {
 // successReturn: a successful return that does not merely forward the result
 // of a callee which itself passes a point on every successful return.
 func (ci *consumerInfo) successReturn(b *ssa.BasicBlock) bool {
+	if ci.errAware {
+		if r, ok := b.Instrs[len(b.Instrs)-1].(*ssa.Return); ok && len(r.Results) == 1 && errorLike(b.Parent().Signature.Results().At(0).Type()) {
+			k, isK := r.Results[0].(*ssa.Const)
+			return isK && k.IsNil() // `return nil`: no error
+		}
+	}
 	if !isSuccessReturn(b) {
 		return false
 	}
@@ -433,6 +463,12 @@ func (ci *consumerInfo) edgeConsumes(pred, succ *ssa.BasicBlock) bool {
 			}
 			k, ok := other.(*ssa.Const)
 			if !ok || !k.IsNil() {
+				continue
+			}
+			if ci.errAware && errorLike(call.Type()) {
+				if (c.Op == token.EQL) == f.Holds && ci.allCallees(call, func(fn *ssa.Function) bool { return ci.onOK[fn] }) {
+					return true // `if err := bind(...); err != nil { return }`: past it, bind has succeeded
+				}
 				continue
 			}
 			if (c.Op == token.NEQ) == f.Holds && ci.allCallees(call, func(fn *ssa.Function) bool { return ci.onOK[fn] }) {
